@@ -38,7 +38,7 @@ TIERS = {
     "thorough": {"shards": 16, "cases": 300000, "calls": 60, "timeout": 3000},
 }
 FLOORS = {
-    "quick": {"counts": {"calls": 30000, "wire_events_checked": 8000, "interlock_rejections": 3000,
+    "quick": {"counts": {"calls": 30000, "output_faults_injected": 300, "wire_events_checked": 8000, "interlock_rejections": 3000,
                          "guarded_accepted": 2000}, "keys": 70},
     "thorough": {"counts": {"calls": 2000000, "interlock_rejections": 150000}, "keys": 80},
 }
